@@ -60,6 +60,9 @@ func c20NewFile(rng *Rng, name string) *c20Node {
 	default:
 		nd.kind = "invalid"
 	}
+	if nd.kind != "fail" && rng.Chance(12) {
+		nd.kind, nd.class, nd.text = c20GenSchedules(rng, nd.kind == "invalid")
+	}
 	return nd
 }
 
@@ -174,7 +177,7 @@ func (e *c20Env) change(rng *Rng, workingDir, logPath string, old []*c20Node, st
 		case op < 80: // same name and mode, the file now prints something else
 			nd := (*d.kids)[PickOne(rng, filesIdx)]
 			nw := c20NewFile(rng, nd.name)
-			nd.kind, nd.variant = nw.kind, nw.variant
+			nd.kind, nd.variant, nd.class, nd.text = nw.kind, nw.variant, nw.class, nw.text
 			p := filepath.Join(abs, nd.name)
 			_ = os.Chmod(p, 0o600)
 			if err := e.writeFile(p, relOf(nd.name), logPath, nd); err != nil {
@@ -319,7 +322,7 @@ func (e *c20Env) bringTo(dir, rel, logPath string, from, to []*c20Node) error {
 				return err
 			}
 		case !n.dir && !o.dir:
-			if n.kind != o.kind || n.variant != o.variant {
+			if n.kind != o.kind || n.variant != o.variant || n.text != o.text {
 				_ = os.Chmod(p, 0o600)
 				if err := e.writeFile(p, r, logPath, n); err != nil {
 					return err
